@@ -557,5 +557,805 @@ theorem chkRemove_fix (l l' : Live) (hfin : ∀ t, (l'.tstate t == .finished) = 
 end gates
 
 
+/-! ### (e) PERT recomputation -/
+
+/-- dependency links stay inside the task list -/
+def WF (m : Model) : Prop :=
+  ∀ t, t < m.nT → (∀ e ∈ (m.task t).inputs, e.1 < m.nT) ∧ (∀ e ∈ (m.task t).outputs, e.1 < m.nT)
+
+section pert
+variable (m : Model)
+
+/-! #### the passes read the live state only through `rem` -/
+
+theorem fwdRelax_rem {l l' : Live} (h : l'.rem = l.rem) : fwdRelax l' = fwdRelax l := by
+  funext p i e
+  simp only [fwdRelax, h]
+
+theorem fwdLoop_rem {l l' : Live} (h : l'.rem = l.rem) : fwdLoop m l' = fwdLoop m l := by
+  funext fuel
+  induction fuel with
+  | zero => rfl
+  | succ n ih =>
+    funext wave p
+    simp only [fwdLoop, fwdWave, fwdRelax_rem h, ih]
+
+theorem bwdRelax_rem {l l' : Live} (h : l'.rem = l.rem) : bwdRelax l' = bwdRelax l := by
+  funext p i e
+  simp only [bwdRelax, h]
+
+theorem bwdLoop_rem {l l' : Live} (h : l'.rem = l.rem) : bwdLoop m l' = bwdLoop m l := by
+  funext fuel
+  induction fuel with
+  | zero => rfl
+  | succ n ih =>
+    funext wave p
+    simp only [bwdLoop, bwdWave, bwdRelax_rem h, ih]
+
+/-! #### one forward relaxation in normal form -/
+
+/-- the `(est, eft)` a forward relaxation proposes for the target of `e` -/
+def fwdCand (l : Live) (p : Pert) (i : Nat) (e : Nat × Dep) : Rat × Rat :=
+  match e.2 with
+  | .fs => (p.est i + l.rem i, p.est i + l.rem i + l.rem e.1)
+  | .ss => (p.est i, p.est i + l.rem e.1)
+  | .ff => (p.est i, if p.eft i > p.est i + l.rem e.1 then p.eft i else p.est i + l.rem e.1)
+  | .sf => (p.est i, if p.est i > p.est i + l.rem e.1 then p.est i else p.est i + l.rem e.1)
+
+theorem fwdRelax_eq (l : Live) (p : Pert) (i : Nat) (e : Nat × Dep) :
+    fwdRelax l p i e =
+      if (fwdCand l p i e).1 ≥ p.est e.1 then
+        { p with est := upd p.est e.1 (fwdCand l p i e).1, eft := upd p.eft e.1 (fwdCand l p i e).2 }
+      else p := by
+  obtain ⟨nx, d⟩ := e
+  cases d <;> rfl
+
+theorem fwdCand_congr (l : Live) {p p' : Pert} (i : Nat) (e : Nat × Dep) (h1 : p'.est = p.est)
+    (h2 : p'.eft i = p.eft i) : fwdCand l p' i e = fwdCand l p i e := by
+  simp only [fwdCand, h1, h2]
+
+theorem fwdCand_ge (l : Live) (p : Pert) (i : Nat) (e : Nat × Dep) (h : 0 ≤ l.rem i) :
+    p.est i ≤ (fwdCand l p i e).1 := by
+  obtain ⟨nx, d⟩ := e
+  cases d <;> simp only [fwdCand] <;> grind
+
+/-! #### membership in the wave lists -/
+
+theorem mem_canonSet (n : Nat) (xs : List Nat) (t : Nat) : t ∈ canonSet n xs ↔ t < n ∧ t ∈ xs := by
+  simp [canonSet]
+
+theorem mem_nextOf (wave : List Nat) (t : Nat) (h : t ∈ nextOf m wave) :
+    t < m.nT ∧ ∃ i ∈ wave, ∃ e ∈ (m.task i).outputs, e.1 = t := by
+  rw [nextOf, mem_canonSet] at h
+  refine ⟨h.1, ?_⟩
+  obtain ⟨i, hi, ht⟩ := List.mem_flatMap.mp h.2
+  obtain ⟨e, he, rfl⟩ := List.mem_map.mp ht
+  exact ⟨i, hi, e, he, rfl⟩
+
+theorem mem_prevOf (wave : List Nat) (t : Nat) (h : t ∈ prevOf m wave) : t < m.nT := by
+  rw [prevOf, mem_canonSet] at h
+  exact h.1
+
+theorem mem_heads (t : Nat) (h : t ∈ heads m) : t < m.nT ∧ (m.task t).inputs.isEmpty = true := by
+  simpa [heads] using h
+
+theorem mem_tails (t : Nat) (h : t ∈ tails m) : t < m.nT := by
+  have : t < m.nT ∧ (m.task t).outputs.isEmpty = true := by simpa [tails] using h
+  exact this.1
+
+/-! #### two forward passes side by side -/
+
+/-- A relation `S` between two PERT tables that every relaxation from a "good" source
+(`G`) preserves — where every relaxed target becomes good and good stays good — is preserved
+by the whole forward pass started from a wave of good sources. -/
+theorem fwdLoop_pair (l : Live) (S : Pert → Pert → Prop) (G : Pert → Pert → Nat → Prop)
+    (hstep : ∀ p p' i e, S p p' → i < m.nT → G p p' i → e ∈ (m.task i).outputs →
+      S (fwdRelax l p i e) (fwdRelax l p' i e) ∧ G (fwdRelax l p i e) (fwdRelax l p' i e) e.1 ∧
+      ∀ t, G p p' t → G (fwdRelax l p i e) (fwdRelax l p' i e) t) :
+    ∀ (fuel : Nat) (wave : List Nat) (p p' : Pert), S p p' → (∀ i ∈ wave, i < m.nT ∧ G p p' i) →
+      S (fwdLoop m l fuel wave p) (fwdLoop m l fuel wave p') := by
+  -- the relaxations out of one source
+  have inner : ∀ (i : Nat) (es : List (Nat × Dep)) (p p' : Pert), S p p' → i < m.nT → G p p' i →
+      (∀ e ∈ es, e ∈ (m.task i).outputs) →
+      S (es.foldl (fun a e => fwdRelax l a i e) p) (es.foldl (fun a e => fwdRelax l a i e) p') ∧
+      (∀ e ∈ es, G (es.foldl (fun a e => fwdRelax l a i e) p)
+        (es.foldl (fun a e => fwdRelax l a i e) p') e.1) ∧
+      (∀ t, G p p' t → G (es.foldl (fun a e => fwdRelax l a i e) p)
+        (es.foldl (fun a e => fwdRelax l a i e) p') t) := by
+    intro i es
+    induction es with
+    | nil => intro p p' hS _ _ _; exact ⟨hS, fun _ h => by simp at h, fun _ h => h⟩
+    | cons e es ih =>
+      intro p p' hS hi hG hes
+      obtain ⟨s1, g1, m1⟩ := hstep p p' i e hS hi hG (hes e (List.mem_cons_self ..))
+      obtain ⟨s2, g2, m2⟩ := ih _ _ s1 hi (m1 i hG) (fun x hx => hes x (List.mem_cons_of_mem _ hx))
+      simp only [List.foldl_cons]
+      refine ⟨s2, ?_, fun t ht => m2 t (m1 t ht)⟩
+      intro x hx
+      rcases List.mem_cons.mp hx with rfl | hx
+      · exact m2 _ g1
+      · exact g2 x hx
+  -- one wave
+  have wv : ∀ (wave : List Nat) (p p' : Pert), S p p' → (∀ i ∈ wave, i < m.nT ∧ G p p' i) →
+      S (fwdWave m l wave p) (fwdWave m l wave p') ∧
+      (∀ i ∈ wave, ∀ e ∈ (m.task i).outputs, G (fwdWave m l wave p) (fwdWave m l wave p') e.1) ∧
+      (∀ t, G p p' t → G (fwdWave m l wave p) (fwdWave m l wave p') t) := by
+    intro wave
+    induction wave with
+    | nil => intro p p' hS _; exact ⟨hS, fun _ h => by simp at h, fun _ h => h⟩
+    | cons i wave ih =>
+      intro p p' hS hw
+      obtain ⟨hi, hG⟩ := hw i (List.mem_cons_self ..)
+      obtain ⟨s1, g1, m1⟩ := inner i (m.task i).outputs p p' hS hi hG (fun _ h => h)
+      obtain ⟨s2, g2, m2⟩ := ih _ _ s1
+        (fun j hj => ⟨(hw j (List.mem_cons_of_mem _ hj)).1, m1 j (hw j (List.mem_cons_of_mem _ hj)).2⟩)
+      simp only [fwdWave, List.foldl_cons] at s2 g2 m2 ⊢
+      refine ⟨s2, ?_, fun t ht => m2 t (m1 t ht)⟩
+      intro j hj e he
+      rcases List.mem_cons.mp hj with rfl | hj
+      · exact m2 _ (g1 e he)
+      · exact g2 j hj e he
+  intro fuel
+  induction fuel with
+  | zero => intro wave p p' hS _; exact hS
+  | succ n ih =>
+    intro wave p p' hS hw
+    simp only [fwdLoop]
+    split
+    · exact hS
+    · obtain ⟨s1, g1, _⟩ := wv wave p p' hS hw
+      apply ih _ _ _ s1
+      intro t ht
+      obtain ⟨hlt, i, hi, e, he, rfl⟩ := mem_nextOf m wave t ht
+      exact ⟨hlt, g1 i hi e he⟩
+
+/-- single-table version: an invariant of every relaxation is an invariant of the pass -/
+theorem fwdLoop_inv (l : Live) (P : Pert → Prop)
+    (hstep : ∀ p i e, P p → i < m.nT → e ∈ (m.task i).outputs → P (fwdRelax l p i e))
+    (fuel : Nat) (wave : List Nat) (p : Pert) (hp : P p) (hw : ∀ i ∈ wave, i < m.nT) :
+    P (fwdLoop m l fuel wave p) :=
+  fwdLoop_pair m l (fun a _ => P a) (fun _ _ _ => True)
+    (fun p _ i e hS hi _ he => ⟨hstep p i e hS hi he, trivial, fun _ _ => trivial⟩)
+    fuel wave p p hp (fun i hi => ⟨hw i hi, trivial⟩)
+
+/-- an invariant of every backward relaxation is an invariant of the backward pass -/
+theorem bwdLoop_inv (l : Live) (P : Pert → Prop)
+    (hstep : ∀ p o e, P p → o < m.nT → e ∈ (m.task o).inputs → P (bwdRelax l p o e)) :
+    ∀ (fuel : Nat) (wave : List Nat) (p : Pert), P p → (∀ o ∈ wave, o < m.nT) →
+      P (bwdLoop m l fuel wave p) := by
+  have inner : ∀ (o : Nat) (es : List (Nat × Dep)) (p : Pert), P p → o < m.nT →
+      (∀ e ∈ es, e ∈ (m.task o).inputs) → P (es.foldl (fun a e => bwdRelax l a o e) p) := by
+    intro o es
+    induction es with
+    | nil => intro p hp _ _; exact hp
+    | cons e es ih =>
+      intro p hp ho hes
+      exact ih _ (hstep p o e hp ho (hes e (List.mem_cons_self ..))) ho
+        (fun x hx => hes x (List.mem_cons_of_mem _ hx))
+  have wv : ∀ (wave : List Nat) (p : Pert), P p → (∀ o ∈ wave, o < m.nT) → P (bwdWave m l wave p) := by
+    intro wave
+    induction wave with
+    | nil => intro p hp _; exact hp
+    | cons o wave ih =>
+      intro p hp hw
+      simp only [bwdWave, List.foldl_cons]
+      exact ih _ (inner o _ p hp (hw o (List.mem_cons_self ..)) (fun _ h => h))
+        (fun x hx => hw x (List.mem_cons_of_mem _ hx))
+  intro fuel
+  induction fuel with
+  | zero => intro wave p hp _; exact hp
+  | succ n ih =>
+    intro wave p hp hw
+    simp only [bwdLoop]
+    split
+    · exact hp
+    · exact ih _ _ (wv wave p hp hw) (fun t ht => mem_prevOf m wave t ht)
+
+end pert
+
+section pert2
+variable (m : Model)
+
+/-! #### frame facts of the two passes -/
+
+theorem fwdRelax_lst (l : Live) (p : Pert) (i : Nat) (e : Nat × Dep) :
+    (fwdRelax l p i e).lst = p.lst ∧ (fwdRelax l p i e).lft = p.lft := by
+  rw [fwdRelax_eq]; split <;> exact ⟨rfl, rfl⟩
+
+/-- the `(lst, lft)` a backward relaxation proposes for the source of `e` -/
+def bwdCand (l : Live) (p : Pert) (o : Nat) (e : Nat × Dep) : Rat × Rat :=
+  match e.2 with
+  | .fs => (p.lst o - l.rem e.1, p.lst o)
+  | .ss => (p.lst o, p.lst o + l.rem e.1)
+  | .ff => (p.lst o, if p.lft o < p.lst o + l.rem e.1 then p.lft o else p.lst o + l.rem e.1)
+  | .sf => (if p.lft o < p.lst o then p.lft o else p.lst o, p.lst o + l.rem e.1)
+
+theorem bwdRelax_eq (l : Live) (p : Pert) (o : Nat) (e : Nat × Dep) :
+    bwdRelax l p o e =
+      if p.lft e.1 < 0 ∨ p.lft e.1 ≥ (bwdCand l p o e).2 then
+        { p with lst := upd p.lst e.1 (bwdCand l p o e).1, lft := upd p.lft e.1 (bwdCand l p o e).2 }
+      else p := by
+  obtain ⟨pv, d⟩ := e
+  cases d <;> rfl
+
+theorem bwdRelax_est (l : Live) (p : Pert) (o : Nat) (e : Nat × Dep) :
+    (bwdRelax l p o e).est = p.est ∧ (bwdRelax l p o e).eft = p.eft := by
+  rw [bwdRelax_eq]; split <;> exact ⟨rfl, rfl⟩
+
+/-- the forward pass writes below `m.nT` only, and never to `lst/lft` -/
+theorem fwdLoop_frame (hwf : WF m) (l : Live) (fuel : Nat) (wave : List Nat) (p : Pert)
+    (hw : ∀ i ∈ wave, i < m.nT) :
+    (∀ t, ¬ t < m.nT → (fwdLoop m l fuel wave p).est t = p.est t ∧
+      (fwdLoop m l fuel wave p).eft t = p.eft t) ∧
+    (fwdLoop m l fuel wave p).lst = p.lst ∧ (fwdLoop m l fuel wave p).lft = p.lft := by
+  refine fwdLoop_inv m l
+    (fun q => (∀ t, ¬ t < m.nT → q.est t = p.est t ∧ q.eft t = p.eft t) ∧ q.lst = p.lst ∧ q.lft = p.lft)
+    ?_ fuel wave p ⟨fun _ _ => ⟨rfl, rfl⟩, rfl, rfl⟩ hw
+  intro q i e hq hi he
+  have hlt : e.1 < m.nT := (hwf i hi).2 e he
+  obtain ⟨h1, h2, h3⟩ := hq
+  refine ⟨?_, (fwdRelax_lst l q i e).1.trans h2, (fwdRelax_lst l q i e).2.trans h3⟩
+  intro t ht
+  have hne : t ≠ e.1 := fun h => ht (h ▸ hlt)
+  rw [fwdRelax_eq]
+  split
+  · simp only [upd_other _ _ _ _ hne]; exact h1 t ht
+  · exact h1 t ht
+
+/-- the backward pass writes below `m.nT` only, and never to `est/eft` -/
+theorem bwdLoop_frame (hwf : WF m) (l : Live) (fuel : Nat) (wave : List Nat) (p : Pert)
+    (hw : ∀ i ∈ wave, i < m.nT) :
+    (∀ t, ¬ t < m.nT → (bwdLoop m l fuel wave p).lst t = p.lst t ∧
+      (bwdLoop m l fuel wave p).lft t = p.lft t) ∧
+    (bwdLoop m l fuel wave p).est = p.est ∧ (bwdLoop m l fuel wave p).eft = p.eft := by
+  refine bwdLoop_inv m l
+    (fun q => (∀ t, ¬ t < m.nT → q.lst t = p.lst t ∧ q.lft t = p.lft t) ∧ q.est = p.est ∧ q.eft = p.eft)
+    ?_ fuel wave p ⟨fun _ _ => ⟨rfl, rfl⟩, rfl, rfl⟩ hw
+  intro q o e hq ho he
+  have hlt : e.1 < m.nT := (hwf o ho).1 e he
+  obtain ⟨h1, h2, h3⟩ := hq
+  refine ⟨?_, (bwdRelax_est l q o e).1.trans h2, (bwdRelax_est l q o e).2.trans h3⟩
+  intro t ht
+  have hne : t ≠ e.1 := fun h => ht (h ▸ hlt)
+  rw [bwdRelax_eq]
+  split
+  · simp only [upd_other _ _ _ _ hne]; exact h1 t ht
+  · exact h1 t ht
+
+end pert2
+
+section pert3
+variable (m : Model)
+
+/-! #### the forward pass on the output of a previous PERT computation -/
+
+/-- the table the forward pass starts from -/
+def fwdInit (m : Model) (time : Rat) (l : Live) : Pert :=
+  { est := fun t => if t < m.nT then time else l.est t
+    eft := fun t => if t < m.nT && (m.task t).inputs.isEmpty then time + l.rem t else l.eft t
+    lst := l.lst, lft := l.lft }
+
+theorem pertFwd_eq (time : Rat) (l : Live) :
+    pertFwd m time l = fwdLoop m l (m.nT + 1) (heads m) (fwdInit m time l) := rfl
+
+/-- The relation between a forward pass `p` and a second forward pass `p'` that started from
+the first one's final `eft` values `E`: same `est`; every `est` is at least `time`; and every
+`eft` either already agrees, or belongs to a task the first pass has not written yet (its
+`est` is still `time`) and holds the final value `E`. -/
+structure FR (m : Model) (time : Rat) (E : Nat → Rat) (p p' : Pert) : Prop where
+  est : p'.est = p.est
+  lo : ∀ t, t < m.nT → time ≤ p.est t
+  eft : ∀ t, p'.eft t = p.eft t ∨ (t < m.nT ∧ p.est t = time ∧ p'.eft t = E t)
+
+theorem FR_step (l : Live) (hrem : ∀ t, t < m.nT → 0 ≤ l.rem t) (time : Rat)
+    (E : Nat → Rat) (p p' : Pert) (i : Nat) (e : Nat × Dep) (hS : FR m time E p p') (hi : i < m.nT)
+    (hG : p'.eft i = p.eft i) :
+    FR m time E (fwdRelax l p i e) (fwdRelax l p' i e) ∧
+    (fwdRelax l p' i e).eft e.1 = (fwdRelax l p i e).eft e.1 ∧
+    ∀ t, p'.eft t = p.eft t → (fwdRelax l p' i e).eft t = (fwdRelax l p i e).eft t := by
+  have hc : fwdCand l p' i e = fwdCand l p i e := fwdCand_congr l i e hS.est hG
+  have hge : time ≤ (fwdCand l p i e).1 :=
+    Rat.le_trans (hS.lo i hi) (fwdCand_ge l p i e (hrem i hi))
+  rw [fwdRelax_eq l p, fwdRelax_eq l p', hc, hS.est]
+  by_cases hw : (fwdCand l p i e).1 ≥ p.est e.1
+  · rw [if_pos hw, if_pos hw]
+    refine ⟨⟨?_, ?_, ?_⟩, ?_, ?_⟩
+    · rfl
+    · intro t ht
+      show time ≤ upd p.est e.1 _ t
+      rw [upd_apply]; split
+      · exact hge
+      · exact hS.lo t ht
+    · intro t
+      show upd p'.eft e.1 _ t = upd p.eft e.1 _ t ∨ (t < m.nT ∧ upd p.est e.1 _ t = time ∧ upd p'.eft e.1 _ t = E t)
+      by_cases ht : t = e.1
+      · left; rw [ht, upd_same, upd_same]
+      · rw [upd_other _ _ _ _ ht, upd_other _ _ _ _ ht, upd_other _ _ _ _ ht]; exact hS.eft t
+    · show upd p'.eft e.1 _ e.1 = upd p.eft e.1 _ e.1
+      rw [upd_same, upd_same]
+    · intro t ht
+      show upd p'.eft e.1 _ t = upd p.eft e.1 _ t
+      by_cases h : t = e.1
+      · rw [h, upd_same, upd_same]
+      · rw [upd_other _ _ _ _ h, upd_other _ _ _ _ h]; exact ht
+  · rw [if_neg hw, if_neg hw]
+    refine ⟨hS, ?_, fun _ h => h⟩
+    rcases hS.eft e.1 with h | ⟨_, h, _⟩
+    · exact h
+    · exfalso; apply hw; rw [h]; exact hge
+
+/-- A second forward pass, on a state that differs from `l` only in that its `eft` (and its
+`est` outside the task list) are those the first pass computed, computes the same `est` and
+`eft` again. -/
+theorem pertFwd_again (hwf : WF m) (l l' : Live) (hrem : ∀ t, t < m.nT → 0 ≤ l.rem t) (time : Rat)
+    (hr : l'.rem = l.rem)
+    (hest : ∀ t, ¬ t < m.nT → l'.est t = (pertFwd m time l).est t)
+    (heft : l'.eft = (pertFwd m time l).eft) :
+    (pertFwd m time l').est = (pertFwd m time l).est ∧
+    (pertFwd m time l').eft = (pertFwd m time l).eft := by
+  have hfr := fwdLoop_frame m hwf l (m.nT + 1) (heads m) (fwdInit m time l)
+    (fun i hi => (mem_heads m i hi).1)
+  rw [← pertFwd_eq] at hfr
+  have h0 : FR m time (pertFwd m time l).eft (fwdInit m time l) (fwdInit m time l') := by
+    refine ⟨?_, ?_, ?_⟩
+    · funext t
+      show (if t < m.nT then time else l'.est t) = (if t < m.nT then time else l.est t)
+      split
+      · rfl
+      · rename_i ht
+        rw [hest t ht, (hfr.1 t ht).1]
+        show (if t < m.nT then time else l.est t) = _
+        rw [if_neg ht]
+    · intro t ht
+      show time ≤ (if t < m.nT then time else l.est t)
+      rw [if_pos ht]; exact Rat.le_refl
+    · intro t
+      show (if t < m.nT && (m.task t).inputs.isEmpty then time + l'.rem t else l'.eft t) =
+          (if t < m.nT && (m.task t).inputs.isEmpty then time + l.rem t else l.eft t) ∨
+        (t < m.nT ∧ (if t < m.nT then time else l.est t) = time ∧
+          (if t < m.nT && (m.task t).inputs.isEmpty then time + l'.rem t else l'.eft t) =
+            (pertFwd m time l).eft t)
+      by_cases hc : (decide (t < m.nT) && (m.task t).inputs.isEmpty) = true
+      · left; rw [if_pos hc, if_pos hc, hr]
+      · rw [if_neg hc, if_neg hc]
+        by_cases ht : t < m.nT
+        · right; exact ⟨ht, if_pos ht, by rw [heft]⟩
+        · left
+          rw [heft, (hfr.1 t ht).2]
+          show (if t < m.nT && (m.task t).inputs.isEmpty then time + l.rem t else l.eft t) = _
+          rw [if_neg hc]
+  have hfin := fwdLoop_pair m l (FR m time (pertFwd m time l).eft) (fun p p' t => p'.eft t = p.eft t)
+    (fun p p' i e hS hi hG _ => FR_step m l hrem time _ p p' i e hS hi hG)
+    (m.nT + 1) (heads m) (fwdInit m time l) (fwdInit m time l') h0 ?_
+  · rw [← pertFwd_eq, ← fwdLoop_rem m hr, ← pertFwd_eq] at hfin
+    refine ⟨hfin.est, ?_⟩
+    funext t
+    rcases hfin.eft t with h | ⟨_, _, h⟩
+    · exact h
+    · exact h
+  · intro i hi
+    obtain ⟨hlt, hemp⟩ := mem_heads m i hi
+    refine ⟨hlt, ?_⟩
+    show (if i < m.nT && (m.task i).inputs.isEmpty then time + l'.rem i else l'.eft i) =
+      (if i < m.nT && (m.task i).inputs.isEmpty then time + l.rem i else l.eft i)
+    have hc : (decide (i < m.nT) && (m.task i).inputs.isEmpty) = true := by simp [hlt, hemp]
+    rw [if_pos hc, if_pos hc, hr]
+
+end pert3
+
+section pert4
+variable (m : Model)
+
+/-! #### the backward pass, and the whole computation -/
+
+/-- the table the backward pass starts from (with the `pertReset` repair) -/
+def bwdInit (m : Model) (l : Live) (cpl : Rat) (p : Pert) : Pert :=
+  { est := p.est, eft := p.eft
+    lft := fun t => if (tails m).contains t then cpl else (if t < m.nT then -1 else p.lft t)
+    lst := fun t => if (tails m).contains t then cpl - l.rem t else (if t < m.nT then -1 else p.lst t) }
+
+theorem pertBwd_eq (l : Live) (p : Pert) :
+    pertBwd m l pertReset p =
+      (bwdLoop m l (m.nT + 1) (tails m) (bwdInit m l (maxList l.cpl ((tails m).map p.eft)) p),
+        maxList l.cpl ((tails m).map p.eft)) := rfl
+
+theorem maxList_idem (d : Rat) (xs : List Rat) : maxList (maxList d xs) xs = maxList d xs := by
+  cases xs <;> rfl
+
+theorem bwdInit_congr (l l' : Live) (cpl : Rat) (p p' : Pert) (hr : l'.rem = l.rem)
+    (h1 : p'.est = p.est) (h2 : p'.eft = p.eft)
+    (h3 : ∀ t, ¬ t < m.nT → p'.lst t = p.lst t ∧ p'.lft t = p.lft t) :
+    bwdInit m l' cpl p' = bwdInit m l cpl p := by
+  unfold bwdInit
+  rw [h1, h2, hr]
+  congr 1
+  · funext t
+    split
+    · rfl
+    · split
+      · rfl
+      · rename_i ht; exact (h3 t ht).1
+  · funext t
+    split
+    · rfl
+    · split
+      · rfl
+      · rename_i ht; exact (h3 t ht).2
+
+/-- the five fields `pert` computes, in terms of the two passes -/
+theorem pert_fields (time : Nat) (l : Live) :
+    (pert m time l).est = (pertBwd m l pertReset (pertFwd m (time : Rat) l)).1.est ∧
+    (pert m time l).eft = (pertBwd m l pertReset (pertFwd m (time : Rat) l)).1.eft ∧
+    (pert m time l).lst = (pertBwd m l pertReset (pertFwd m (time : Rat) l)).1.lst ∧
+    (pert m time l).lft = (pertBwd m l pertReset (pertFwd m (time : Rat) l)).1.lft ∧
+    (pert m time l).cpl = (pertBwd m l pertReset (pertFwd m (time : Rat) l)).2 := by
+  refine ⟨?_, ?_, ?_, ?_, rfl⟩ <;> exact tabN_eq _ _
+
+/-- `pert` is determined by what the two passes return (on states that agree elsewhere) -/
+theorem pert_pert_of_out (time : Nat) (l : Live)
+    (h : pertBwd m (pert m time l) pertReset (pertFwd m (time : Rat) (pert m time l)) =
+      pertBwd m l pertReset (pertFwd m (time : Rat) l)) :
+    pert m time (pert m time l) = pert m time l := by
+  show (match pertBwd m (pert m time l) pertReset (pertFwd m (time : Rat) (pert m time l)) with
+    | (pb, cpl) => ({ (pert m time l) with est := tabN m.nT pb.est, eft := tabN m.nT pb.eft,
+                                           lst := tabN m.nT pb.lst, lft := tabN m.nT pb.lft,
+                                           cpl := cpl } : Live)) = _
+  rw [h]
+  rfl
+
+/-- **(e)** recomputing the PERT data of a state whose PERT data have just been computed
+changes nothing, when no remaining work amount is negative. -/
+theorem pert_idem (hwf : WF m) (time : Nat) (l : Live) (hrem : ∀ t, t < m.nT → 0 ≤ l.rem t) :
+    pert m time (pert m time l) = pert m time l := by
+  apply pert_pert_of_out
+  obtain ⟨fe, ff, fl, fL, fc⟩ := pert_fields m time l
+  rw [pertBwd_eq] at fe ff fl fL fc
+  have hb := bwdLoop_frame m hwf l (m.nT + 1) (tails m)
+    (bwdInit m l (maxList l.cpl ((tails m).map (pertFwd m (time : Rat) l).eft)) (pertFwd m (time : Rat) l))
+    (fun i hi => mem_tails m i hi)
+  have hf := fwdLoop_frame m hwf l (m.nT + 1) (heads m) (fwdInit m time l)
+    (fun i hi => (mem_heads m i hi).1)
+  rw [← pertFwd_eq] at hf
+  have hf' := fwdLoop_frame m hwf (pert m time l) (m.nT + 1) (heads m) (fwdInit m time (pert m time l))
+    (fun i hi => (mem_heads m i hi).1)
+  rw [← pertFwd_eq] at hf'
+  -- the second forward pass
+  have hfw := pertFwd_again m hwf l (pert m time l) hrem (time : Rat) rfl
+    (fun t _ => by rw [fe]; exact congrFun hb.2.1 t)
+    (by rw [ff]; exact hb.2.2)
+  -- the critical path length
+  have hcpl : maxList (pert m time l).cpl ((tails m).map (pertFwd m (time : Rat) (pert m time l)).eft) =
+      maxList l.cpl ((tails m).map (pertFwd m (time : Rat) l).eft) := by
+    rw [hfw.2, fc]; exact maxList_idem _ _
+  rw [pertBwd_eq, pertBwd_eq, hcpl, bwdLoop_rem m (show (pert m time l).rem = l.rem from rfl)]
+  congr 2
+  apply bwdInit_congr m l (pert m time l) _ _ _ rfl hfw.1 hfw.2
+  intro t ht
+  have hnt : (tails m).contains t = false := by
+    rw [Bool.eq_false_iff]; intro hc
+    exact ht (mem_tails m t (by simpa using hc))
+  constructor
+  · rw [hf'.2.1, hf.2.1]
+    show (pert m time l).lst t = l.lst t
+    rw [fl, (hb.1 t ht).1]
+    show (if (tails m).contains t then _ else (if t < m.nT then _ else (pertFwd m (time : Rat) l).lst t)) = _
+    rw [hnt, if_neg (by simp), if_neg ht, hf.2.1]; rfl
+  · rw [hf'.2.2, hf.2.2]
+    show (pert m time l).lft t = l.lft t
+    rw [fL, (hb.1 t ht).2]
+    show (if (tails m).contains t then _ else (if t < m.nT then _ else (pertFwd m (time : Rat) l).lft t)) = _
+    rw [hnt, if_neg (by simp), if_neg ht, hf.2.2]; rfl
+
+end pert4
+
+section upd
+variable (m : Model)
+
+/-! ### the whole `__update` block is idempotent on its own output -/
+
+theorem removeOne_rem (l : Live) (c : Nat) : (removeOne l c).rem = l.rem := by
+  unfold removeOne; split <;> rfl
+
+theorem chkRemove_rem (l : Live) : (chkRemove m l).rem = l.rem := by
+  simp only [chkRemove, chkRemoveOrd]
+  exact foldl_proj _ Live.rem removeOne_rem _ _
+
+theorem update_rem (time : Nat) (l : Live) : (update m time l).rem = (chkFinished m l).rem := by
+  show (chkRemove m (compCheck m (chkFinished m l))).rem = _
+  rw [chkRemove_rem]; rfl
+
+theorem update_NR (time : Nat) (l : Live) :
+    NR (chkFinished m l).tstate (update m time l).tstate := by
+  have h := chkReady_NR m (chkRemove m (compCheck m (chkFinished m l)))
+  rw [chkRemove_tstate, compCheck_tstate] at h
+  exact h
+
+/-- **the update block is idempotent on its own output**, given well-formed links and no
+negative remaining work after `check_state(FINISHED)` (needed by the PERT part only) -/
+theorem update_idem (hwf : WF m) (time : Nat) (l : Live)
+    (hrem : ∀ t, t < m.nT → 0 ≤ (chkFinished m l).rem t) :
+    update m time (update m time l) = update m time l := by
+  have hn := update_NR m time l
+  -- (a)
+  have h1 : chkFinished m (update m time l) = update m time l :=
+    chkFinished_of_noCand m _ (NoCand_NR m (chkFinished_noCand m l) hn (update_rem m time l))
+  -- (b)
+  have h2 : compCheck m (update m time l) = update m time l :=
+    compCheck_fix m (chkReady m (chkRemove m (compCheck m (chkFinished m l)))) _ rfl rfl
+  -- (c)
+  have h3 : chkRemove m (update m time l) = update m time l :=
+    chkRemove_fix m (compCheck m (chkFinished m l)) _ (fun t => hn.finished t) rfl
+  -- (d)
+  have h4 : chkReady m (update m time l) = update m time l :=
+    chkReady_fix m (chkRemove m (compCheck m (chkFinished m l))) _ rfl
+  -- (e)
+  have h5 : pert m time (update m time l) = update m time l :=
+    pert_idem m hwf time (compCheck m (chkReady m (chkRemove m (compCheck m (chkFinished m l)))))
+      (fun t ht => by
+        have := hrem t ht
+        rw [← update_rem m time l] at this
+        exact this)
+  calc update m time (update m time l)
+      = pert m time (compCheck m (chkReady m (chkRemove m (compCheck m
+          (chkFinished m (update m time l)))))) := rfl
+    _ = update m time l := by rw [h1, h2, h3, h4, h2, h5]
+
+/-- the same with the PERT part taken as a hypothesis (no condition on the model) -/
+theorem update_idem_of_pert (time : Nat) (l : Live)
+    (hpert : ∀ l', pert m time (pert m time l') = pert m time l') :
+    update m time (update m time l) = update m time l := by
+  have hn := update_NR m time l
+  have h1 : chkFinished m (update m time l) = update m time l :=
+    chkFinished_of_noCand m _ (NoCand_NR m (chkFinished_noCand m l) hn (update_rem m time l))
+  have h2 : compCheck m (update m time l) = update m time l :=
+    compCheck_fix m (chkReady m (chkRemove m (compCheck m (chkFinished m l)))) _ rfl rfl
+  have h3 : chkRemove m (update m time l) = update m time l :=
+    chkRemove_fix m (compCheck m (chkFinished m l)) _ (fun t => hn.finished t) rfl
+  have h4 : chkReady m (update m time l) = update m time l :=
+    chkReady_fix m (chkRemove m (compCheck m (chkFinished m l))) _ rfl
+  have h5 : pert m time (update m time l) = update m time l := hpert _
+  calc update m time (update m time l)
+      = pert m time (compCheck m (chkReady m (chkRemove m (compCheck m
+          (chkFinished m (update m time l)))))) := rfl
+    _ = update m time l := by rw [h1, h2, h3, h4, h2, h5]
+
+/-! ### no negative remaining work at the PERT call: models without finish gates -/
+
+/-- every non-WORKING task below `m.nT` has a non-negative remaining work amount -/
+def RemOK (m : Model) (l : Live) : Prop :=
+  ∀ t, t < m.nT → l.tstate t ≠ .working → 0 ≤ l.rem t
+
+/-- the model has no FF / SF links -/
+def NoFinishGate (m : Model) : Prop :=
+  ∀ t, t < m.nT → ∀ e ∈ (m.task t).inputs, e.2 = .fs ∨ e.2 = .ss
+
+/-- work amounts are non-negative and default progress is at most 1 -/
+def WorkOK (m : Model) : Prop :=
+  ∀ t, t < m.nT → 0 ≤ (m.task t).work ∧ (m.task t).prog ≤ 1
+
+theorem finishGate_of_noGate (h : NoFinishGate m) (ts : Nat → TS) (t : Nat) (ht : t < m.nT) :
+    finishGate m ts t = true := by
+  rw [finishGate_iff]
+  intro e he
+  rcases h t ht e he with h' | h' <;> rw [h'] <;> exact ⟨(fun x => nomatch x), (fun x => nomatch x)⟩
+
+theorem releaseW_rem (t : Nat) (l : Live) (w : Nat) : (releaseW t l w).rem = l.rem := by
+  unfold releaseW; split <;> rfl
+theorem releaseF_rem (t : Nat) (l : Live) (f : Nat) : (releaseF t l f).rem = l.rem := by
+  unfold releaseF; split <;> rfl
+
+theorem finishOne_rem (l : Live) (t : Nat) : (finishOne m l t).rem = upd l.rem t 0 := by
+  unfold finishOne
+  simp only
+  split
+  · simp only [foldl_proj _ Live.rem (releaseF_rem t), foldl_proj _ Live.rem (releaseW_rem t)]
+  · simp only [foldl_proj _ Live.rem (releaseW_rem t)]
+
+theorem RemOK_finStep (acc : Live) (t : Nat) (h : RemOK m acc) : RemOK m (finStep m acc t) := by
+  unfold finStep
+  split
+  · intro t' ht' hw
+    rw [finishOne_rem, upd_apply]
+    split
+    · exact Rat.le_refl
+    · rename_i hne
+      apply h t' ht'
+      rw [finishOne_tstate, upd_other _ _ _ _ hne] at hw
+      exact hw
+  · exact h
+
+theorem RemOK_finishClosure (order : List Nat) (fuel : Nat) (l : Live) (h : RemOK m l) :
+    RemOK m (finishClosure m order fuel l) := by
+  induction fuel generalizing l with
+  | zero => exact h
+  | succ n ih =>
+    have hp : RemOK m (finishPass m order l) :=
+      foldl_inv (finStep m) (RemOK m) (fun b a hb => RemOK_finStep m b a hb) order l h
+    simp only [finishClosure]
+    split
+    · exact hp
+    · exact ih _ hp
+
+theorem RemOK_congr {l l' : Live} (ht : l'.tstate = l.tstate) (hr : l'.rem = l.rem)
+    (h : RemOK m l) : RemOK m l' := by
+  unfold RemOK; rw [ht, hr]; exact h
+
+theorem RemOK_chkFinished (l : Live) (h : RemOK m l) : RemOK m (chkFinished m l) := by
+  refine RemOK_congr m ?_ ?_ (RemOK_finishClosure m (List.range m.nT) (m.nT + 1) l h)
+  · simp [chkFinished, chkFinishedOrd]
+  · simp [chkFinished, chkFinishedOrd]
+
+/-- without finish gates a WORKING task that overshot is finished (and clamped to 0) at once,
+so after `check_state(FINISHED)` no remaining work is negative -/
+theorem chkFinished_rem_nonneg (hng : NoFinishGate m) (l : Live) (h : RemOK m l) :
+    ∀ t, t < m.nT → 0 ≤ (chkFinished m l).rem t := by
+  intro t ht
+  by_cases hw : (chkFinished m l).tstate t = .working
+  · have hc := chkFinished_noCand m l t ht
+    rw [finishGate_of_noGate m hng _ t ht, Bool.and_true] at hc
+    simp only [finishCand, hw, beq_self_eq_true, Bool.true_and, decide_eq_false_iff_not] at hc
+    exact Rat.le_of_lt (Rat.not_le.mp hc)
+  · exact RemOK_chkFinished m l h t ht hw
+
+theorem RemOK_update (time : Nat) (l : Live) (h : RemOK m l) : RemOK m (update m time l) := by
+  have hn := update_NR m time l
+  intro t ht hw
+  rw [update_rem]
+  apply RemOK_chkFinished m l h t ht
+  intro hw'
+  apply hw
+  have := hn.working t
+  rw [hw'] at this
+  simpa using this
+
+end upd
+
+section step
+variable (m : Model)
+
+/-! ### `RemOK` along a run -/
+
+theorem moveComp_rem (l : Live) (c p : Nat) : (moveComp l c p).rem = l.rem := by
+  unfold moveComp
+  dsimp only
+  split <;> split <;> rfl
+
+theorem placeStep_rem (t : Nat) (l : Live) : (placeStep m t l).rem = l.rem := by
+  unfold placeStep
+  split
+  · rfl
+  · split
+    · dsimp only
+      split
+      · rfl
+      · exact moveComp_rem _ _ _
+    · rfl
+
+theorem allocWorkers_rem (t : Nat) (a : Alloc) : (allocWorkers m t a).l.rem = a.l.rem := by
+  unfold allocWorkers
+  refine foldl_proj_eq _ (fun x : Alloc => x.l.rem) ?_ _ _ _ rfl
+  intro b w
+  split <;> rfl
+
+theorem allocPairs_rem (t : Nat) (a : Alloc) : (allocPairs m t a).l.rem = a.l.rem := by
+  unfold allocPairs
+  split
+  · rfl
+  · split
+    · rfl
+    · refine foldl_proj_eq _ (fun x : Alloc => x.l.rem) ?_ _ _ _ rfl
+      intro b f
+      dsimp only
+      split <;> rfl
+
+theorem allocTask_rem (acc : Alloc) (t : Nat) : (allocTask m acc t).l.rem = acc.l.rem := by
+  unfold allocTask
+  dsimp only
+  have h1 : ∀ (b : Bool) (mv : List Nat),
+      (if b then acc else { acc with l := placeStep m t acc.l, moved := mv }).l.rem = acc.l.rem := by
+    intro b mv
+    cases b
+    · exact placeStep_rem m t acc.l
+    · rfl
+  split
+  · exact h1 _ _
+  · split
+    · rw [allocPairs_rem]; exact h1 _ _
+    · rw [allocWorkers_rem]; exact h1 _ _
+
+theorem allocate_rem (lg : Logs) (rule : TaskRule) (l : Live) : (allocate m lg rule l).rem = l.rem := by
+  unfold allocate
+  dsimp only
+  exact foldl_proj_eq _ (fun x : Alloc => x.l.rem) (allocTask_rem m) _ _ _ rfl
+
+theorem preWorking_rem (p : Params) (s : St) : (preWorking m p s).rem = s.live.rem := by
+  unfold preWorking
+  split
+  · rw [allocate_rem]; rfl
+  · rfl
+
+theorem startOne_rem (l : Live) (t : Nat) : (startOne m l t).rem = l.rem := by
+  unfold startOne
+  dsimp only
+  split
+  · split
+    · refine foldl_proj_eq _ Live.rem ?_ _ _ _ ?_
+      · intro _ _; rfl
+      · refine foldl_proj_eq _ Live.rem ?_ _ _ _ rfl
+        intro _ _; rfl
+    · refine foldl_proj_eq _ Live.rem ?_ _ _ _ rfl
+      intro _ _; rfl
+  · split
+    · refine foldl_proj_eq _ Live.rem ?_ _ _ _ rfl
+      intro a w
+      split
+      · refine foldl_proj_eq _ Live.rem ?_ _ _ _ ?_
+        · intro b f; split <;> rfl
+        · split <;> rfl
+      · split <;> rfl
+    · rfl
+
+theorem chkWorking_rem (l : Live) : (chkWorking m l).rem = l.rem := by
+  simp only [chkWorking, chkWorkingOrd]
+  exact foldl_proj _ Live.rem (startOne_rem m) _ _
+
+/-- a WORKING task is still WORKING after `check_state(WORKING)` -/
+theorem chkWorking_keeps_working (l : Live) (t : Nat) (h : l.tstate t = .working) :
+    (chkWorking m l).tstate t = .working := by
+  rw [chkWorking_tstate]
+  refine foldl_inv (startOne m) (fun a => a.tstate t = .working) ?_ _ l h
+  intro a t' ha
+  rw [startOne_tstate]
+  split
+  · rw [upd_apply]; split
+    · rfl
+    · exact ha
+  · exact ha
+
+theorem perform_rem (w a : Bool) (l : Live) (t : Nat) :
+    (perform m w a l).rem t =
+      if t < m.nT && l.tstate t == .working && (w || (a && (m.task t).isAuto))
+      then l.rem t - contrib m l t else l.rem t := by
+  simp [perform]
+
+theorem perform_rem_of_not_working (w a : Bool) (l : Live) (t : Nat) (h : l.tstate t ≠ .working) :
+    (perform m w a l).rem t = l.rem t := by
+  rw [perform_rem]
+  have : (l.tstate t == TS.working) = false := by simpa using h
+  rw [this, Bool.and_false, Bool.false_and, if_neg (by simp)]
+
+theorem RemOK_stepBody (p : Params) (s : St) (h : RemOK m s.live) :
+    RemOK m (stepBody m p s).live := by
+  intro t ht hw
+  rw [stepBody_tstate] at hw
+  have hpw : (preWorking m p s).tstate t ≠ .working :=
+    fun hh => hw (chkWorking_keeps_working m _ t hh)
+  rw [preWorking_tstate] at hpw
+  rw [stepBody_live, perform_rem_of_not_working m _ _ _ t (by rw [compCheck_tstate]; exact hw)]
+  show 0 ≤ (chkWorking m (preWorking m p s)).rem t
+  rw [chkWorking_rem, preWorking_rem]
+  exact h t ht hpw
+
+theorem updated_idem (hwf : WF m) (hng : NoFinishGate m) (s : St) (h : RemOK m s.live) :
+    updated m (updated m s) = updated m s := by
+  show ({ updated m s with live := update m s.time (update m s.time s.live) } : St) = _
+  rw [update_idem m hwf s.time s.live (chkFinished_rem_nonneg m hng s.live h)]
+  rfl
+
+/-- after `initialize(state_info=True)` the remaining work amounts are the default ones -/
+theorem RemOK_enter (hw : WorkOK m) (p : Params) (s : St) (h : p.initState = true) :
+    RemOK m (enter m p s).live := by
+  intro t ht _
+  rw [enter_live, h, initProject_live]
+  show 0 ≤ (initLive m p.initLog s.live).rem t
+  have : ∀ l : Live, (initLive m p.initLog l).rem t = (m.task t).work * (1 - (m.task t).prog) := by
+    intro l; simp [initLive, ht]
+  rw [this]
+  obtain ⟨h1, h2⟩ := hw t ht
+  apply Rat.mul_nonneg h1
+  grind
+
+end step
+
 end Idem
 end PDesy
